@@ -116,13 +116,17 @@ private def exDs : List ByteArray := [fill 100 1, fill 40 2]
 #guard (scan crcCodec true 1 ((build exDs).extract 0 130)).ok == true
 #guard (scan crcCodec true 1 ((build exDs).extract 0 130)).recs.length == 1
 -- the excluded cuts read as end of file for the strict reader too (no incomplete chunk is left):
--- at a record boundary, inside the padding in front of a record, and — KNOWN LIMITATION, the same in
--- the Go reader (`off >= fileSize`) — at the block boundary between two chunks of one record
+-- at a record boundary and inside the padding in front of a record
 #guard (scan crcCodec false 1 ((build exDs).extract 0 107)).ok == true
 #guard (build [fill 32755 1]).size == 32762
 #guard (scan crcCodec false 1 ((build [fill 32755 1, fill 10 2]).extract 0 32765)).ok == true
 #guard (build [fill 40000 3]).size > BS
-#guard (scan crcCodec false 1 ((build [fill 40000 3]).extract 0 BS)).ok == true
+-- a cut at the block boundary between two chunks of ONE record leaves no incomplete chunk either, but the record is
+-- unfinished: the strict reader reports it (`DataReader.endOfLog`; before that repair it read as a clean end of file),
+-- the tolerant reader ends the log in front of the record
+#guard (scan crcCodec false 1 ((build [fill 40000 3]).extract 0 BS)).ok == false
+#guard (scan crcCodec true 1 ((build [fill 40000 3]).extract 0 BS)).ok == true
+#guard (scan crcCodec true 1 ((build [fill 40000 3]).extract 0 BS)).recs.length == 0
 #guard (scan crcCodec false 1 ((build [fill 40000 3]).extract 0 (BS + 1))).ok == false
 #guard (scan crcCodec false 1 ((build [fill 40000 3]).extract 0 (BS - 1))).ok == false
 
